@@ -670,7 +670,7 @@ fn fam_recover(r: &mut Rng) -> Result<(), String> {
             let tr: Vec<_> = sent.iter().filter_map(|x| if let Sent::Transfer { amount, denom, receiver, sub_id } = x { Some((amount.clone(), denom.clone(), receiver.clone(), *sub_id)) } else { None }).collect();
             let maxid = all.last().unwrap().sequence;
             let want = vec![(sum.to_string(), sel[0].amount.denom.clone(), rcv.to_string(), maxid + 1)];
-            if tr != want || sent.len() != 1 { return Err(format!("recovery sent {sent:?}, expected one transfer {want:?}; {ctx}")); }
+            if tr != want { return Err(format!("recovery sent {sent:?}, expected one transfer {want:?}; {ctx}")); }
             for p in &all {
                 let still = INFLIGHT_PACKETS.may_load(&deps.storage, p.sequence).unwrap();
                 let selected = sel.iter().any(|q| q.sequence == p.sequence);
